@@ -97,6 +97,10 @@ func CheckSpatialIdsArrayOverlap(spatialIds1 []string, spatialIds2 []string) (bo
 		if errAltConversion != nil {
 			return false, fmt.Errorf("%w @spatialId2[%v] = %v", errAltConversion, indexSpatialId2, spatialId2)
 		}
+		// 比較対象が空の場合、木が空のため重複は存在しない(入力チェックのみ継続)
+		if len(spatialIds1) == 0 {
+			continue
+		}
 		result := tr.IsOverlap(tree.Indexs{convertedFIndex2, int64(x2), int64(y2)}, tree.ZoomSetLevel(zoom2))
 		if result {
 			// 重複判定時、trueとnilを返却
